@@ -18,7 +18,7 @@ ID = 'C13'
 LEVEL = 'exploration'
 RUNS = {'quick': 16000, 'thorough': 300000}
 CHUNK = 40
-PROBES = ['capture_begins_and_ends_inside_announcement_pairs', 'trace_string_code_outside_trace_class', 'request_without_code_table_after_custom_one', 'crossing_classes_on_one_thread', 'process_named_like_a_number', 'empty_thread_map', 'process_of_thread_announced_in_stream', 'dump_cut_at_both_ends', 'class_filter_bsd', 'class_filter_non_bsd', 'bsd_subclass_filter', 'tid_filter', 'process_filter_name', 'process_filter_pid',
+PROBES = ['request_that_fails_at_creation', 'lookup_crossing_call_start', 'capture_begins_and_ends_inside_announcement_pairs', 'trace_string_code_outside_trace_class', 'request_without_code_table_after_custom_one', 'crossing_classes_on_one_thread', 'process_named_like_a_number', 'empty_thread_map', 'process_of_thread_announced_in_stream', 'dump_cut_at_both_ends', 'class_filter_bsd', 'class_filter_non_bsd', 'bsd_subclass_filter', 'tid_filter', 'process_filter_name', 'process_filter_pid',
           'helper_trace_class_hidden', 'helper_fs_class_hidden', 'helper_class_requested', 'repeat_request', 'callstacks_repeat',
           'kevents_after_traces', 'tuple_filter', 'images_announced_after_sample', 'combined_filters']
 RULE = ('one run = one long-lived PyKdebugParser and a history of 2..6 judged requests (traces, formatted_traces, callstacks, '
@@ -46,6 +46,12 @@ def _gen_filters(rng, dump):
     elif r < 0.55:
         f['cls'] = rng.pick([[1], [0x1f], [7]])
         f['sub'] = [0x040c]
+    if dump.get('lookup_structures') and rng.chance(0.5):
+        f['cls'] = rng.pick([[3], [4], [3, 4], [3, 7], [4, 1]])
+        f.pop('sub', None)
+        if rng.chance(0.3):
+            f.pop('cls')
+            f['sub'] = [0x040c]
     if dump.get('moved_trace') and rng.chance(0.4):
         f['cls'] = rng.pick([[MOVED_ID >> 24], [MOVED_ID >> 24, 4], [1, MOVED_ID >> 24]])
         f.pop('sub', None)
@@ -178,6 +184,21 @@ def generate(rng, index, tier):
                               'a': [990000 + rng.randrange(99), pid, 0, rng.word()] if kind == 'NEWTHREAD' else [pid, rng.word(), rng.word(), 0]})
             d['orphan_halves'] = True
         if rng.chance(0.15):
+            # a path lookup that begins before the call it belongs to and ends inside it (the call's START is logged between the
+            # lookup's chunks), and a lookup on its own with an unrelated record of another class between its chunks
+            th = rng.pick(d['threads'])
+            ids_ = worlds.catalog()['ids']
+            name = rng.pick(['BSC_open', 'BSC_stat64', 'BSC_access', 'BSC_lstat64'])
+            s_, e_ = worlds.domains.draw(rng, name)
+            lk = worlds.op_lookup(rng, rng.pick([30, 60, 100]))
+            lk['between'] = {'0': [{'k': 'sys', 'name': name, 's': s_, 'e': e_, 'in': [], 'noend': True}]}
+            at = rng.randrange(len(th['ops']) + 1)
+            th['ops'][at:at] = [lk, {'k': 'raw', 'id': ids_[name], 'q': 2, 'a': list(e_)}]
+            lk2 = worlds.op_lookup(rng, rng.pick([30, 60, 100]))
+            lk2['between'] = {'0': [{'k': 'one', 'name': 'MACH_MKRUNNABLE', 'q': 0, 'a': [rng.randrange(1, 120), rng.randrange(1, 120), 0, 0]}]}
+            th['ops'].insert(rng.randrange(len(th['ops']) + 1), lk2)
+            d['lookup_structures'] = True
+        if rng.chance(0.15):
             # a record of a code that only the caller's own table names - as a kernel trace string, outside the trace class
             th = rng.pick(d['threads'])
             th['ops'].insert(rng.randrange(len(th['ops']) + 1), {'k': 'raw', 'id': MOVED_ID, 'q': 0, 'a': worlds.kernel.records.text_words(rng.ident(3, 9).encode(), 4)})
@@ -196,6 +217,8 @@ def generate(rng, index, tier):
         di = rng.randrange(len(dumps))
         if r < 0.25:
             hist.append({'op': 'set', 'filters': _gen_filters(rng, dumps[di])})
+        elif r < 0.27:
+            hist.append({'op': 'bad_request', 'how': rng.pick(['empty', 'short', 'unknown', 'closed']), 'what': rng.pick(['traces', 'traces', 'formatted_traces', 'callstacks', 'kevents'])})
         elif r < 0.3:
             hist.append({'op': 'mutate', 'how': rng.pick(['append', 'remove']), 'value': rng.pick([4, 1, 0x1f, 7, 3])})
             if rng.chance(0.3):
@@ -387,6 +410,26 @@ def execute(scn):
                 bump('fault:reconfigure')
                 bump('filter_list_edited_in_place')
             continue
+        if h['op'] == 'bad_request':
+            # a request that cannot even start (empty / unknown / closed stream): it raises, and leaves the object as it was
+            before = (copy.deepcopy(p.filter_tid), copy.deepcopy(p.filter_process), copy.deepcopy(p.filter_class), copy.deepcopy(p.filter_subclass))
+            rd = SimReader({'empty': b'', 'short': b'\x00\x02', 'unknown': b'\x11\x22\x33\x44' + bytes(64)}.get(h['how'], b''))
+            if h['how'] == 'closed':
+                rd.close()
+            try:
+                g = getattr(p, h.get('what', 'traces'))(rd)
+                for _x in g:
+                    pass
+            except Exception:
+                pass
+            bump('probe:request_that_fails_at_creation')
+            bump('fault:failed_request')
+            now = (p.filter_tid, p.filter_process, p.filter_class, p.filter_subclass)
+            if now != before or [type(x) for x in now] != [type(x) for x in before]:
+                viols.append({'tag': 'filter-settings-changed', 'sig': 'failed-request',
+                              'detail': 'caller set (tid, process, class, subclass) = %r, after a request on an unreadable stream they are %r' % (before, now)})
+            hist.append(['bad_request', h['how']])
+            continue
         if h['op'] == 'set':
             cur = h['filters']
             apply_filters(p, cur)
@@ -448,6 +491,8 @@ def execute(scn):
                     bump('probe:process_of_thread_announced_in_stream')
             if scn['dumps'][di].get('faults'):
                 bump('probe:dump_cut_at_both_ends')
+            if scn['dumps'][di].get('lookup_structures') and (cls or sub):
+                bump('probe:lookup_crossing_call_start')
             if scn['dumps'][di].get('orphan_halves'):
                 bump('probe:capture_begins_and_ends_inside_announcement_pairs')
             if tref.get(MOVED_ID) and any(_first(t).eventid == MOVED_ID for t, _s, _p in ref) and (MOVED_ID >> 24) in cls:
